@@ -459,11 +459,39 @@ def spliced_args(cx, call):
     return out
 
 
+def _dict_display_of(cx, name):
+    """the dict display a local (of cx's function or an enclosing one) is bound to, if it is bound exactly once and the dict is never
+    modified afterwards (no item store / delete, no method call on it, not handed to anything but `**`)"""
+    c = cx
+    while c is not None:
+        ds = [(n, v) for n in c.cfg.nodes for (nm, v) in c.cfg.defs_of(n) if nm == name]
+        if ds:
+            if len(ds) != 1 or not isinstance(ds[0][1], ast.Dict):
+                return None
+            for x in ast.walk(c.f.node):
+                if isinstance(x, ast.Subscript) and isinstance(x.value, ast.Name) and x.value.id == name and isinstance(x.ctx, (ast.Store, ast.Del)):
+                    return None
+                if isinstance(x, ast.Attribute) and isinstance(x.value, ast.Name) and x.value.id == name:
+                    return None
+                if isinstance(x, ast.Call) and any(isinstance(a, ast.Name) and a.id == name for a in x.args):
+                    return None
+            return ds[0][1]
+        c = c.parent
+    return None
+
+
 def bound_args(P, cx, call):
     """{parameter name: argument expression} of a call to a repository function / dataclass, however the arguments are
     spelled (positionally or by keyword). Unresolvable callees yield only the keywords."""
     from ..inline import _resolve, _params_of
     out = {k.arg: k.value for k in call.keywords if k.arg}
+    for k in call.keywords:
+        if k.arg is None:
+            # `**opts` where opts is a single-definition local (of this function or an enclosing one) bound to a dict display with literal keys
+            d = _dict_display_of(cx, k.value.id) if isinstance(k.value, ast.Name) else k.value
+            if isinstance(d, ast.Dict) and all(isinstance(kk, ast.Constant) and isinstance(kk.value, str) for kk in d.keys):
+                for kk, vv in zip(d.keys, d.values):
+                    out.setdefault(kk.value, vv)
     t = _resolve(P, cx.f, call)
     names = None
     if t is not None:
@@ -743,4 +771,28 @@ def explore_sym(cx, atom_eval, transfer, state0=(), on_edge=None, start=None, on
             for (m, l) in n.succ:
                 if l != 'exc':
                     todo.append((m, nenv, st2))
+    return out
+
+
+def root_params(cx, node, expr, depth=0, seen=None):
+    """names of the parameters of cx's function that the value of `expr` at `node` is computed from, followed through locals
+    (`pkt = Name.normalize(pkt_name); f(pkt[:-1])` -> {'pkt_name'})"""
+    seen = set() if seen is None else seen
+    out = set()
+    params = {a.arg for a in cx.f.node.args.posonlyargs + cx.f.node.args.args + cx.f.node.args.kwonlyargs}
+    for x in ast.walk(expr):
+        if not (isinstance(x, ast.Name) and isinstance(x.ctx, ast.Load)):
+            continue
+        for s in cx.sources(node, x):
+            if s.kind == 'param':
+                out.add(str(s.expr))
+            elif s.kind == 'expr' and s.node is not None and depth < 6:
+                key = (s.node.id, ast.unparse(s.expr))
+                if key in seen:
+                    continue
+                seen.add(key)
+                if isinstance(s.expr, ast.Name) and s.expr.id in params and s.expr.id == x.id:
+                    out.add(s.expr.id)
+                else:
+                    out |= root_params(s.ctx or cx, s.node, s.expr, depth + 1, seen)
     return out
